@@ -143,7 +143,7 @@ def learn (d : DState) (spec : String) (an : List String) : Option (DState × Fi
   | some old => if old.fs != fs then none else some ({ d with letters := tab }, { old with writes := w })
   | none => some ({ d with letters := tab }, { fs := fs, writes := w })
 
-def step (d : DState) (line : List String) : DState × String :=
+def stepBase (d : DState) (line : List String) : DState × String :=
   let (op, an) := splitAnnot line
   let d := { d with clock := d.clock + 1, st := { d.st with ls := { d.st.ls with clock := d.clock + 1 } } }
   let s := d.st
@@ -369,6 +369,38 @@ def step (d : DState) (line : List String) : DState × String :=
             else out d (nsGet s f a) "ok"
       | _, _ => bad
   | _ => bad
+
+/-- `delr <A> up <B> <pin>` / `delr <A> del <B> -`: DELETE of A held at the entry of `DelFile` while
+    an upload / a complete DELETE of B runs (`apiDeleteHeld`); every other op: `stepBase`.
+    Output `<status of DELETE A> r=<status of the overlapping operation> <dump>`. -/
+def step (d0 : DState) (line : List String) : DState × String :=
+  let (op, an) := splitAnnot line
+  match op with
+  | ["delr", a, what, b, arg] =>
+    let d := { d0 with clock := d0.clock + 1, st := { d0.st with ls := { d0.st.ls with clock := d0.clock + 1 } } }
+    let s := d.st
+    let bad : DState × String := (d, "bad-op")
+    if what != "up" && what != "del" then bad else
+    if (specEntries a).isNone || (specEntries b).isNone || a == b then bad else
+    if (what == "up" && arg != "0" && arg != "1") || (what == "del" && arg != "-") then bad else
+    match s.files.lookup a, s.files.lookup b with
+    | none, _ => (d, "nofile")
+    | some fa, fb? =>
+      if what == "del" && fb?.isNone then (d, "nofile") else
+      if fa.enc || fb?.any (·.enc) then bad else
+      if !known s fa.fs || !complete s fa.fs then (d, "unstable") else
+      if what == "del" then
+        match fb? with
+        | none => (d, "nofile")
+        | some fb =>
+          if !known s fb.fs || !complete s fb.fs then (d, "unstable") else
+          out d (apiDeleteHeld s fa.fs (fun s => apiDelete s fb.fs)) "200 r=200"
+      else
+        -- the upload of B is the ordinary `up` step (it advances the clock once, as the runner does per op line)
+        let (d1, w1) := stepBase d0 (["up", b, arg, "|"] ++ an)
+        if !w1.startsWith "201 " then (d, w1) else
+        out d1 (apiDeleteHeld d1.st fa.fs id) "200 r=201"
+  | _ => stepBase d0 line
 
 def handler : Driver.Handler := { σ := DState, init := {}, step := step }
 
